@@ -108,6 +108,10 @@ type ledgerEntry struct {
 	// RejectsPresent: decoder name -> substrings each of which must occur in some entry of its CURRENT rejection census
 	// (E8), e.g. {"dhcpv6.RelayMessageFromBytes": ["Read8()-13!=0"]}: the decoder still refuses other message types
 	RejectsPresent map[string][]string `json:"rejects_present,omitempty"`
+	// MadeFields: struct type -> map-typed fields that every allocation of the type in the library initialises with make
+	// in the allocating function, e.g. {"dhcpv4.DHCPv4": ["Options"]}: a packet the library built or decoded never
+	// carries a nil option map
+	MadeFields map[string][]string `json:"made_fields,omitempty"`
 }
 
 type ledgerFile struct {
@@ -533,9 +537,12 @@ func (e *e4Engine) open(in ssa.Instruction, key, detail string) {
 				}
 			}
 		}
+		if len(le.MadeFields) > 0 {
+			missing = append(missing, e.madeFieldsMissing(le.MadeFields)...)
+		}
 		if len(missing) == 0 {
 			by := "ledger"
-			if le.Assume || len(le.Requires)+len(le.CallersAny)+le.CallersParamNonNeg+len(le.SchemaSlots)+len(le.RejectsPresent) == 0 {
+			if le.Assume || len(le.Requires)+len(le.CallersAny)+le.CallersParamNonNeg+len(le.SchemaSlots)+len(le.RejectsPresent)+len(le.MadeFields) == 0 {
 				by = "ledger (reasoned, no machine-checked fact)"
 			} else {
 				by = "ledger + guard facts " + strings.Join(le.Requires, " ∧ ")
@@ -547,6 +554,9 @@ func (e *e4Engine) open(in ssa.Instruction, key, detail string) {
 				}
 				if len(le.RejectsPresent) > 0 {
 					by += fmt.Sprintf(" + rejections %v present in the current census", le.RejectsPresent)
+				}
+				if len(le.MadeFields) > 0 {
+					by += fmt.Sprintf(" + every allocation of the type in the library makes the map fields %v", le.MadeFields)
 				}
 				if le.CallersParamNonNeg > 0 {
 					by += fmt.Sprintf(" + every call site passes a non-negative value for parameter %d (constant, or the caller's own such parameter + constant)", le.CallersParamNonNeg)
@@ -1125,6 +1135,10 @@ func (e *e4Engine) bounds(in ssa.Instruction, x ssa.Value, idx, lo, hi ssa.Value
 			e.close(in, key, by, "", false)
 			return
 		}
+		if by, ok := pr.proveSortLess(in, x, idx); ok {
+			e.close(in, key, by, "", false)
+			return
+		}
 	} else {
 		if by, ok := pr.proveSlice(in, x, lo, hi); ok {
 			e.close(in, key, by, "", false)
@@ -1520,3 +1534,53 @@ func (e *e4Engine) minLenOf(v ssa.Value, b *ssa.BasicBlock) int64 {
 }
 
 var _ = strconv.Itoa
+
+// madeFieldsMissing: see ledgerEntry.MadeFields
+func (e *e4Engine) madeFieldsMissing(req map[string][]string) []string {
+	var missing []string
+	for tn, fields := range req {
+		n := 0
+		for _, f := range e.c.P.ModuleFuncs() {
+			if f.Blocks == nil || strings.HasSuffix(pkgPathOf(f), "_test") {
+				continue
+			}
+			allInstrs(f, func(in ssa.Instruction) {
+				al, ok := in.(*ssa.Alloc)
+				if !ok {
+					return
+				}
+				nt, ok := al.Type().(*types.Pointer).Elem().(*types.Named)
+				if !ok || nt.Obj().Pkg() == nil || nt.Obj().Pkg().Name()+"."+nt.Obj().Name() != tn || !inModulePath(nt.Obj().Pkg().Path()) {
+					return
+				}
+				n++
+				st, _ := nt.Underlying().(*types.Struct)
+				for _, fld := range fields {
+					made := false
+					for _, ref := range *al.Referrers() {
+						fa, ok := ref.(*ssa.FieldAddr)
+						if !ok || st == nil || st.Field(fa.Field).Name() != fld {
+							continue
+						}
+						for _, r2 := range *fa.Referrers() {
+							if s2, ok := r2.(*ssa.Store); ok && s2.Addr == ssa.Value(fa) {
+								if _, isMake := s2.Val.(*ssa.MakeMap); isMake {
+									made = true
+								}
+							}
+						}
+					}
+					if !made {
+						missing = append(missing, "allocation of "+tn+" at "+e.c.P.ipos(al)+" in "+shortName(f)+" does not make field "+fld)
+					}
+				}
+			})
+		}
+		if n == 0 {
+			missing = append(missing, "no allocation of "+tn+" found in the library")
+		}
+	}
+	return missing
+}
+
+func inModulePath(p string) bool { return p == modPath || strings.HasPrefix(p, modPath+"/") }
